@@ -486,6 +486,26 @@ func (fx *FX) evalCall(env *Env, c ECall) Val {
 				}
 			}
 		}
+	case "jstype", "jsint", "jsstring", "jsbool": // readings of a js.Value (or of an `any` holding one)
+		var ref T
+		switch a := argv(0).(type) {
+		case VStruct:
+			ref = flatten(a)[0]
+		case VIface:
+			ref = sel(sel(env.st.H, a.Box), num(0))
+		default:
+			fx.fail("contract: %s needs a js.Value", c.Fn)
+			return VInt{num(0)}
+		}
+		switch c.Fn {
+		case "jstype":
+			return VInt{app(SInt, "jstype", ref)}
+		case "jsint":
+			return VInt{app(SInt, "jsint", ref)}
+		case "jsstring":
+			return VSeq{app(SSeq, "jsstring", ref)}
+		}
+		return VBool{app(SBool, "jsbool", ref)}
 	case "qhas", "qval": // abstract contents of a string->string map value (local map, url.Values)
 		if mv, ok := argv(0).(VMap); ok {
 			g := fx.mapGhost(env.st, mv.Ref)
